@@ -960,6 +960,20 @@ def run_det(ck):
                 meta.append((part, n, g, T))
                 nre += 1
     ck.extra["det_reentrant_runs"] = nre
+    # every public overload (body / functional form x default / simple / static partitioner x with / without a user context) must
+    # build the same tree as the overload used above
+    nov = 0
+    for part, n, g in cfgs:
+        if n < 2 or n > 300 or (part == "simple" and n // g > 300):
+            continue
+        for ov in range(12):
+            if (ov % 3 == 2) != (part == "static"):
+                continue
+            for T in ([1, 4] if quick else [1, 2, 4, 8]):
+                lines.append("detov %d %d %d %d %d %d" % (ov, n, g, T, rng.randrange(1 << 30), rng.choice([0, 30])))
+                meta.append((part, n, g, T))
+                nov += 1
+    ck.extra["det_overload_runs"] = nov
     outs, crashes = run_lines(ck.exe_real, lines, timeout=1800)
     # model terms
     q, qi = [], {}
@@ -1486,6 +1500,41 @@ def pure_counterexamples(ck):
                           {"engine": "E-PURE", "harness": H + "pure.cpp", "stdin": line, "monitor": "no-crash"})
 
 
+def run_overloads(ck):
+    """every public overload of parallel_reduce (body / functional form x default, simple, auto, static, affinity x with / without a user
+    context) must return the in-order fold; (the deterministic-reduce overloads are compared tree by tree in run_det)"""
+    rng = ck.rng
+    quick = ck.tier == "quick"
+    lines, meta = [], []
+    for n in ([1, 7, 64, 257, 1000] if quick else [0, 1, 2, 7, 64, 100, 257, 1000, 4099]):
+        for g in ([1, 16] if quick else [1, 3, 16, 100]):
+            for ov in range(20):
+                for T in ([1, 4] if quick else [1, 2, 4, 8]):
+                    lines.append("redov %d %d %d %d %d %d" % (ov, n, g, T, rng.randrange(1 << 30), rng.choice([0, 30, 100])))
+                    meta.append((ov, n, g, T))
+    outs, crashes = run_lines(ck.exe_real, lines, timeout=1800)
+    not_run(ck, "reduce overloads", outs, crashes, lines)
+    bad = []
+    for i, (m, o) in enumerate(zip(meta, outs)):
+        ov, n, g, T = m
+        if o == SKIPPED:
+            continue
+        want = "e" if n == 0 else "0-%d" % (n - 1)
+        d = parse_kv(o) if o else {}
+        ck.count(1, ("redov", ov, min(n, 64), g, T))
+        if d.get("value") != want:
+            bad.append((i, "value=%s expected %s" % (d.get("value"), want)))
+        else:
+            ck.traces_validated += 1
+    ck.extra["reduce_overload_runs"] = len(lines)
+    ck.oblige("monitor:all 20 parallel_reduce overloads (body/functional x 5 partitioner choices x context) return the in-order fold (free monoid)",
+              "correspondence", not bad and not crashes, "" if not bad else "%s: %s" % (lines[bad[0][0]], bad[0][1]))
+    if bad:
+        i, text = bad[0]
+        ck.counterexample("reduce:overload-%d:n=%d:grain=%d:threads=%d" % meta[i], "parallel_reduce overload %d: %s (scenario `%s`)" % (meta[i][0], text, lines[i]),
+                          {"engine": "E-REAL", "harness": H + "real.cpp", "stdin": lines[i], "repeat": 20, "monitor": "reduce", "n": meta[i][1], "observed": text})
+
+
 def run(ck):
     ck.rule = ("E-PURE: arrays for split_range in classes sorted / reverse / all-equal / one inversion at every position / few distinct keys / "
                "random / organ-pipe, sizes 1-65, 490-520, 1000-4097 (thorough to 30011), comparators <, >, x/3, x/100, x%7; median_of_three and "
@@ -1541,6 +1590,7 @@ def run(ck):
     pure_counterexamples(ck)
     stage("reduce", run_reduce)
     stage("det", run_det)
+    stage("overloads", run_overloads)
     stage("scan", run_scan)
 
 
